@@ -5,7 +5,7 @@ from .base import Verdict, sig_of, crash_check, tagged
 
 ID = "C07"
 LEVEL = "exploration"
-RUNS = (30000, 900000)
+RUNS = (60000, 1200000)
 RULE = ("one seeded source object - a setter history (any interleaving of group-less and sectioned keys, overwrites, re-opened "
         "sections, typed setters, > 8 entries) on one of three constructors, or a parsed full-grammar 5.1 file - whose texts all "
         "have the unambiguous form of DESIGN.md 5.4, written with delimiter in {=,:,space} and comment in {#,;} through the real "
